@@ -63,13 +63,26 @@ macro_rules! dispatch_request {
         match $request.method.as_str() {
             $(
                 <$req_type>::METHOD => {
-                    if let Ok((id, params)) = $request.extract::<<$req_type as LspRequest>::Params>(<$req_type>::METHOD) {
-                        let snapshot = $context.snapshot();
-                        $context.task(id.clone(), |cancel_token| async move {
-                            let result = $handler(snapshot, params, cancel_token).await;
-                            Some(Response::new_ok(id, result))
-                        }).await;
-                        return Ok(());
+                    let request_id = $request.id.clone();
+                    match $request.extract::<<$req_type as LspRequest>::Params>(<$req_type>::METHOD) {
+                        Ok((id, params)) => {
+                            let snapshot = $context.snapshot();
+                            $context.task(id.clone(), |cancel_token| async move {
+                                let result = $handler(snapshot, params, cancel_token).await;
+                                Some(Response::new_ok(id, result))
+                            }).await;
+                            return Ok(());
+                        }
+                        Err(err) => {
+                            // every request must be answered, also one whose params do not deserialize
+                            error!("invalid params for request {}: {}", <$req_type>::METHOD, err);
+                            let response = Response::new_err(
+                                request_id,
+                                lsp_server::ErrorCode::InvalidParams as i32,
+                                err.to_string(),
+                            );
+                            $context.send(response);
+                        }
                     }
                 }
             )*
